@@ -60,6 +60,10 @@ func c03(c *Check) {
 	m := msM
 	ms := c.F(xibcK + "Keeper.RecvPacket")
 
+	c.Rule("C03/receipt-on-the-outer-context", "msg server RecvPacket: the packet keeper's RecvPacket (proof check + receipt) runs on the transaction's own context, not on the cache context that is discarded when the callback fails: a failed delivery keeps its receipt, so it cannot be delivered again after its refund", 1)
+	for _, cs := range c.Calls(ms, "packet/keeper.(Keeper).RecvPacket") {
+		c.ArgIs(cs, "C03/receipt-on-the-outer-context", "RecvPacket.ctx", m, 1, "{CTX}")
+	}
 	c.Rule("C03/cache-discipline", "msg server RecvPacket: the destination callback runs on the cache context; write() is never reachable from the callback's error edge; the error acknowledgement is written on the outer context", 5)
 	calls := c.Calls(ms, "keeper.(Keeper).CallPacket")
 	c.Req(len(calls) == 1, "C03/cache-discipline", "one onRecvPacket CallPacket site", ms.Pos(), "", fmt.Sprintf("%d CallPacket sites in msg-server RecvPacket", len(calls)))
